@@ -57,6 +57,18 @@ def handle (j : Json) : Json :=
   | .arr #[.str "tags", .arr args] =>
     reply (tagsCtor (args.toList.map toTArg)) (fun l => Json.arr (l.map (fun s => Json.str (String.ofList s))).toArray)
   | .arr #[.str "name", .str cls, v] => reply (setName cls (toVal v)) (fun s => Json.str (String.ofList s))
+  | .arr #[.str "create", .str own, .str kind, .str variant, .str parent, v] =>
+    reply (createNamed own kind variant parent.toList (toVal v)) (fun s => Json.str (String.ofList s))
+  | .arr #[.str "ehist", .str cls, .str init, .arr ops] =>
+    let ops' := ops.toList.filterMap fun o =>
+      match o with
+      | .arr #[.str e, v] =>
+        (match e with
+         | "rename" => some NameEntry.rename | "assign" => some NameEntry.assign
+         | "set_property" => some NameEntry.setProperty | "set_properties" => some NameEntry.setProperties | _ => none).map (fun x => (x, toVal v))
+      | _ => none
+    let r := runElem { cls := cls, name := init.toList, handle := init.toList } ops'
+    ok (Json.arr #[.str (String.ofList r.name), .str (String.ofList r.handle)])
   | .arr #[.str "boot", v] => reply (setBoot (toVal v)) (fun o => match o with | none => Json.null | some s => Json.str (String.ofList s))
   | .arr #[.str "jsonstr", .str cls, .num n, .bool valid] => reply (jsonStr cls n.mantissa.toNat valid) (fun _ => Json.bool true)
   | .arr #[.str "jsonobj", .str cls, .bool dok, .num n] => reply (jsonObj cls dok n.mantissa.toNat) (fun _ => Json.bool true)
